@@ -71,7 +71,10 @@ RULE = ("exhaustive: every text over {a,B,space,\\n,(,)} up to the tier's length
         "movements from a 13-movement alphabet x 11 terminals (operators, Escape); then seeded random texts "
         "(<= 40 chars, quotes, brackets, wide chars, tabs) with random operator x motion x counts (incl. ~ with "
         "tilde_operator, gq, counts >= 10^6), `<f|F|t|T c> <operator> ;|,` sequences, random sessions of 2-8 "
-        "groups from navigation / insert / temporary-navigation mode, random visual excursions; a case is "
+        "groups from navigation / insert / temporary-navigation mode, random visual excursions; texts with the "
+        "length-changing case mappings (sharp s, fi ligature, dotted capital I, j with caron) under g? gu gU g~ ~ "
+        "x 12 motions on spans followed by characters and by line breaks (model and oracle); operator + [count] "
+        "n / N with loaded history (oracle only); a case is "
         "non-trivial when the text is non-empty")
 EXHAUSTIVE = True
 EXHAUSTIVE_SCOPE = {"quick": "alphabet {a,B,space,\\n,(,)}: len 0 full product operators x motion instances; len 1 all motion instances x d, 60 rotating per other operator; len 2 120 rotating instances x d, 5 per other operator; len 3 all states, 10 x d + 1 per other operator; raw TextObjects over {a,space,\\n} len<=4, all in-range offsets x 3 types; sessions: all admissible pairs over the 35-group alphabet on 2 texts x 3 cursors, triples 12x10x12 on 1 text x 2 cursors, doubled forms on 6 texts; visual: 2 texts x <=4 cursors x 3 selection types x (11 terminals x (1 + 13 movements) + 169 movement pairs)",
@@ -85,8 +88,9 @@ TRUSTED = ["harness/c08.py compares text, cursor, clipboard (with type), named r
            "harness/c08.py track() (key grammar used only to keep generated / shrunk sessions inside the modelled key set)"]
 ASSUMPTIONS = ["CPython str slicing semantics; `re` on the word patterns == maximal class runs (differentially checked)",
                "str.isspace / regex \\s tables regenerated from the interpreter",
-               "transform callbacks = ASCII rot13/lower/upper/swapcase in the correspondence (texts use ASCII letters "
-               "and caseless symbols there); theorems hold for every callback",
+               "transform callbacks = ASCII rot13/lower/upper/swapcase plus CPython's four length-changing mappings "
+               "(U+00DF, U+FB01, U+01F0 upper, U+0130 lower) in the correspondence; theorems hold for every callback, "
+               "also length-changing ones (transform_frame: take a ++ f(span) ++ drop b)",
                "the buffer is not read-only, no digraph is being entered, Buffer.text_width = 0 (gq wraps at 80)",
                "gq: the only line separator in the text is \\n (str.splitlines also splits at \\r \\v \\f \\x1c-\\x1e \\x85 "
                "\\u2028 \\u2029, which the generators do not produce)",
@@ -95,7 +99,7 @@ ASSUMPTIONS = ["CPython str slicing semantics; `re` on the word patterns == maxi
                "sessions: operator keys typed while another operator is pending carry no register prefix (a "
                "register name could itself be a text object key); `dd` `cc` `yy` typed without a pause are other "
                "bindings (C09) and are not generated"]
-PARTIAL_SCOPE = ["n N (search motions) are not modelled; `(` `)` are no text objects in vi.py",
+PARTIAL_SCOPE = ["n N (search motions, Buffer._search / get_search_position over the history entries) are not in the Lean model: oracle only (operator + [count] n / N with 0-2 loaded history entries: the count-th match must lie in the edited text, else nothing changes; else the span is exactly cursor..match); `(` `)` are no text objects in vi.py",
                  "H M L gm: Window.render_info is a stub in the correspondence (rows and width are parameters of the theorems)",
                  "gq: frame and no-op theorems only (that the words are preserved is checked by the oracle, not proved); other line separators than \\n not modelled",
                  "visual mode: j/k and all text objects as movements, one excursion from a fresh state (not threaded through the session model); visual J / x / I / A, `aw` auto-word, macros, digraphs, replace modes, dot-repeat are not modelled; observed, not judged: a text object typed in visual mode (viw, vi( ...) selects one character past its end",
@@ -496,7 +500,9 @@ def all_cases(tier, rng):
     sess = list(sess_exhaustive(tier, salt)) + list(sess_random(rng, 600 if tier == "quick" else 12000))
     # visual mode: one excursion  v|V|c-v  movements  operator|Escape
     vis = list(vis_exhaustive(tier, salt)) + list(vis_random(rng, 500 if tier == "quick" else 10000))
-    return interleave(single, interleave(sess, vis))
+    # length-changing case mappings under the transform operators; operator + n / N with history
+    extra = list(uni_cases(tier, rng)) + list(srch_cases(tier, rng))
+    return interleave(interleave(single, extra), interleave(sess, vis))
 
 
 def cases_single(tier, rng):
@@ -541,6 +547,8 @@ def model_lines(case):
         return [sess_model_line(case)] if track(case) else []
     if case["k"] == "vis":
         return [vis_model_line(case)] if vis_split(case) is not None else []
+    if case["k"] == "srch":
+        return []
     t, c = enc_str(case["text"]), case["cur"]
     if case["k"] == "raw":
         for s, e, ty in case["tos"]:
@@ -608,6 +616,8 @@ def impl_lines(case):
         return [sess_impl_line(case)] if track(case) else []
     if case["k"] == "vis":
         return [vis_impl_line(case)] if vis_split(case) is not None else []
+    if case["k"] == "srch":
+        return []
     if case["k"] == "raw":
         ed = get_editor()
         for s, e, ty in case["tos"]:
@@ -1072,6 +1082,8 @@ def oracle(case):
         return oracle_sess(case)
     if case["k"] == "vis":
         return oracle_vis(case)
+    if case["k"] == "srch":
+        return oracle_srch(case)
     if case["k"] != "e2e":
         return oracle_raw(case)
     res = run_case(case)
@@ -1700,6 +1712,189 @@ def oracle_vis(case):
     return v
 
 
+# ------------------------------------------------------------------ length-changing case mappings
+# 'ß'.upper() == 'SS', 'ﬁ'.upper() == 'FI', 'ǰ'.upper() == 'J̌', 'İ'.lower() == 'i̇': the transformed span is
+# longer than the span (Buffer.transform_region must take the tail from `to`, not from the new length)
+UNI_TEXTS = ["straße und weg", "maße\nzweite zeile\n", "ﬁn aﬁ b\nc", "İİ x\ny", "aǰ ǰb c", "ßß", "ß\nß\nab", "aİßﬁǰ b c"]
+UNI_MOTIONS = [["e"], ["E"], ["$"], ["w"], ["l"], ["iw"], ["aw"], ["j"], ["b"], ["0"], ["f", " "], ["t", "b"]]
+
+
+def uni_cases(tier, rng):
+    tf_ops = ["gU", "gu", "g~", "g?"]
+    for text in UNI_TEXTS:
+        curs = range(len(text) + 1) if tier != "quick" else sorted({0, 1, 2, len(text) // 2, max(0, len(text) - 2)})
+        for cur in curs:
+            ops = []
+            for name in tf_ops:
+                for m in UNI_MOTIONS:
+                    ops.append([None, name, None, None] + m)
+                ops.append([None, name, None, 2, "l"])
+                ops.append([2, name, None, None, "w"])
+            ops.append([None, "d", None, None, "e"])
+            yield {"k": "e2e", "text": text, "cur": cur, "clip": ["zz", 0], "screen": None, "ops": ops}
+    for _ in range(60 if tier == "quick" else 1500):
+        text = "".join(rng.choice(["ß", "ﬁ", "İ", "ǰ", "a", "B", " ", " ", "\n", "."]) for _ in range(rng.randrange(1, 14)))
+        cur = rng.randrange(0, len(text) + 1)
+        ops = []
+        for _ in range(8):
+            op = rand_op(rng)
+            while is_extra(op) or op[1] == "gq":
+                op = rand_op(rng)
+            if rng.randrange(3):
+                op[1] = rng.choice(tf_ops + ["~"])
+                op[2] = None
+            ops.append(op)
+        yield {"k": "e2e", "text": text, "cur": cur, "clip": ["zz", 0], "screen": None, "ops": ops}
+
+
+# ------------------------------------------------------------------ operator + n / N (search motion, history loaded)
+# {"k": "srch", "hist": [older, ..., newer], "text", "cur", "pat", "ops": [[opArg, name, reg, motArg, "n"|"N"], ...]}
+# oracle only (n / N are not in the Lean model): the count-th match of the walk "rest of the edited text,
+# then the other history entries in order, then around" must lie in the edited text, else the motion fails
+# and the operator changes nothing; if it does, the span is exactly cursor .. match.
+def srch_setup(case):
+    from collections import deque
+    ed, app, vs = setup(case["text"], case["cur"], case.get("clip", ["zz", 0]))
+    buf = ed.buffer
+    buf._working_lines = deque(list(case["hist"]) + [case["text"]])
+    buf._Buffer__working_index = len(case["hist"])
+    st = app.current_search_state
+    st.text = case["pat"]
+    from prompt_toolkit.search import SearchDirection
+    st.direction = SearchDirection.FORWARD
+    return ed, app, vs
+
+
+def srch_run(case, op):
+    ed, app, vs = srch_setup(case)
+    err = None
+    try:
+        ed.feed(op_keys(op))
+        ed.flush()
+    except Exception as e:
+        err = type(e).__name__
+        app.key_processor.reset()
+    r = snap(ed, app, vs, err)
+    r["widx"] = ed.buffer.working_index
+    ed.buffer.reset(Document("", 0))
+    return r
+
+
+def nth_match(lines, wi, cur, pat, count, forward):
+    """reference walk of a repeated search: (entry index, position) of the count-th match or None"""
+    idx, pos, n = wi, cur, len(lines)
+    for _ in range(count):
+        t = lines[idx]
+        p = t.find(pat, pos + 1) if forward else (t.rfind(pat, 0, pos) if pos >= len(pat) else -1)
+        if not forward and p >= 0 and p + len(pat) > pos:
+            p = t.rfind(pat, 0, max(0, pos - len(pat)) + len(pat))
+            if p >= 0 and p + len(pat) > pos:
+                p = -1
+        if p >= 0:
+            pos = p
+            continue
+        found = None
+        # the entries behind (before) this one, then the first (last) entry once more: with a single
+        # entry that is the wrap-around inside the text
+        order = [i % n for i in range(idx + 1, n + 1)] if forward else [i % n for i in range(idx - 1, -2, -1)]
+        for i in order:
+            q = lines[i].find(pat) if forward else lines[i].rfind(pat)
+            if q >= 0:
+                found = (i, q)
+                break
+        if found is None:
+            return None
+        idx, pos = found
+    return idx, pos
+
+
+def oracle_srch(case):
+    v = []
+    text, cur, pat = case["text"], case["cur"], case["pat"]
+    lines = list(case["hist"]) + [text]
+    wi = len(case["hist"])
+    clip0 = tuple(case.get("clip", ["zz", 0]))
+    for op in case["ops"]:
+        oa, name, reg, ma, k = op[0], op[1], op[2], op[3], op[4]
+        r = srch_run(case, op)
+        keys = op_keys(op)
+
+        def bad(cond, msg):
+            v.append({"signature": f"operator + search motion {k} | {cond}",
+                      "msg": f"{msg}: history={case['hist']!r} text={text!r} cur={cur} pattern={pat!r} keys={keys!r} -> "
+                             f"text={r['text']!r} cur={r['cur']} clip={r['clip']!r} regs={r['regs']!r}"})
+
+        if r["err"]:
+            bad("exception " + r["err"], "handler raised")
+            continue
+        if r["pending"]:
+            continue
+        base = vi_fix(text, cur) if oa is not None else cur
+        m = nth_match(lines, wi, base, pat, norm_count(oa, ma), k == "n")
+        new_clip = (r["clip"][0], r["clip"][1])
+        stored = new_clip if reg is None else r["regs"].get(reg)
+        if r["widx"] != wi:
+            bad("history entry changed", "the operator moved to another history entry")
+            continue
+        if m is None or m[0] != wi or m[1] == base:
+            if r["text"] != text or new_clip != clip0 or r["regs"]:
+                bad("failing motion", "the count-th match is not in the edited text but the operator changed something")
+            continue
+        a, b = min(base, m[1]), max(base, m[1])
+        if text[b - 1] == "\n":
+            b -= 1          # an exclusive span that ends in column 0 stops at the end of the previous line
+        if a == b:
+            if r["text"] != text or new_clip != clip0 or r["regs"]:
+                bad("failing motion", "the span holds no character but the operator changed something")
+            continue
+        span = text[a:b]
+        if name in ("d", "c"):
+            if r["text"] != text[:a] + text[b:] or stored != (span, 0):
+                bad("span != cursor..match", f"expected the span [{a},{b}) = {span!r} to be removed and stored")
+        elif name == "y":
+            if r["text"] != text or stored != (span, 0):
+                bad("span != cursor..match", f"expected the span [{a},{b}) = {span!r} to be stored, text unchanged")
+        elif name in TF:
+            if r["text"] != text[:a] + TF[name](span) + text[b:] or new_clip != clip0 or r["regs"]:
+                bad("span != cursor..match", f"expected exactly the span [{a},{b}) to be transformed")
+    seen, out = set(), []
+    for x in v:
+        if x["signature"] not in seen:
+            seen.add(x["signature"])
+            out.append(x)
+    return out
+
+
+SRCH_ENTRIES = ["xx needle yy needle zz", "needle", "no match here", "a needle\nb needle", ""]
+SRCH_TEXTS = ["alpha beta gamma delta epsilon", "one needle two needle three", "needle at start\nand needle here\nneedle",
+              "ab needle", ""]
+
+
+def srch_cases(tier, rng):
+    ops = []
+    for name, reg in [("d", None), ("y", None), ("c", None), ("g~", None), ("gU", None), ("d", "a"), ("y", "a")]:
+        for k in ("n", "N"):
+            for oa, ma in [(None, None), (None, 2), (2, None), (None, 3)]:
+                if name in ("d", "y") and reg is None or (oa, ma) in [(None, None), (None, 2)]:
+                    ops.append([oa, name, reg, ma, k])
+    hists = [[], [SRCH_ENTRIES[0]], [SRCH_ENTRIES[1]], [SRCH_ENTRIES[2]], [SRCH_ENTRIES[0], SRCH_ENTRIES[2]],
+             [SRCH_ENTRIES[3], SRCH_ENTRIES[1]], [SRCH_ENTRIES[4], SRCH_ENTRIES[0]]]
+    for hist in hists:
+        for text in SRCH_TEXTS:
+            curs = sorted({0, len(text) // 3, len(text) // 2, max(0, len(text) - 1)}) if tier == "quick" \
+                else range(0, len(text) + 1, 2)
+            for cur in curs:
+                yield {"k": "srch", "hist": hist, "text": text, "cur": cur, "pat": "needle", "clip": ["zz", 0], "ops": ops}
+    for _ in range(100 if tier == "quick" else 3000):
+        pat = rng.choice(["ab", "a", "x y", "needle"])
+        mk = lambda: "".join(rng.choice(["a", "b", "x", " ", "y", "\n", "ab", pat]) for _ in range(rng.randrange(0, 8)))
+        hist = [mk() for _ in range(rng.randrange(0, 3))]
+        text = mk()
+        cur = rng.randrange(0, len(text) + 1)
+        sub = [list(rng.choice(ops)) for _ in range(6)]
+        yield {"k": "srch", "hist": hist, "text": text, "cur": cur, "pat": pat, "clip": ["zz", 0], "ops": sub}
+
+
 # ------------------------------------------------------------------ visual-mode generators
 VIS_TEXTS = ["abc\ndef\nghi", "ab cd\n\nef g", "a(b c)d", "ab\n", ""]
 VIS_MOVES = [["mv", None, "l"], ["mv", None, "h"], ["mv", None, "w"], ["mv", None, "e"], ["mv", None, "$"],
@@ -1886,6 +2081,8 @@ def sess_random(rng, n):
 
 
 def sample_view(case):
+    if case["k"] == "srch":
+        return dict(case, ops=[op_keys(o) for o in case["ops"][:8]])
     if case["k"] == "vis":
         sp = vis_split(case)
         return dict(case, keys=None if sp is None else
@@ -1908,7 +2105,11 @@ def distribution(cases):
         n = len(c["text"])
         key = str(n) if n < 6 else "6+"
         d["text_len"][key] = d["text_len"].get(key, 0) + 1
-        if c["k"] == "vis":
+        if c["k"] == "srch":
+            d.setdefault("search_motion", {})
+            for op in c["ops"]:
+                d["search_motion"][op[1] + op[4]] = d["search_motion"].get(op[1] + op[4], 0) + 1
+        elif c["k"] == "vis":
             d.setdefault("visual", {})
             sp = vis_split(c)
             key = ["v", "V", "c-v"][c["ty"]] + " " + ("?" if sp is None else sp[1][0] if sp[1][0] == "esc" else sp[1][2])
